@@ -382,6 +382,39 @@ def inject(model, prog, fault, pick):
     raise ValueError(fault)
 
 
+def program_line_failures(p, prog, lm, hist, rec):
+    """Argument / ListArgument line numbers of the loaded Program against the renderer's line map."""
+    from mpilot.arguments import ListArgument
+
+    fails = []
+    by_name = {c["result"]: i for i, c in enumerate(prog["commands"])}
+    for rname, cmd in p.commands.items():
+        i = by_name.get(rname)
+        if i is None:
+            continue
+        if cmd.lineno != lm[("cmd", i)]:
+            fails.append(Failure("program_command|wrong_line|%s" % hist, "command %s: line %r, expected %d" % (rname, cmd.lineno, lm[("cmd", i)])))
+        names = [a["name"] for a in prog["commands"][i]["args"]]
+        for arg in cmd.arguments:
+            if arg.name not in names:
+                continue
+            j = names.index(arg.name)
+            rec.label("program_argument_lines_checked")
+            if isinstance(arg, ListArgument):
+                want = lm[("val", i, j)]
+                if arg.lineno != want:
+                    fails.append(Failure("program_list_argument|wrong_line|%s" % hist, "%s.%s: line %r, the list starts on line %d" % (rname, arg.name, arg.lineno, want)))
+                wants = [lm[("val", i, j, k)] for k in range(len(arg.value))]
+                if list(arg.list_linenos or []) != wants:
+                    fails.append(Failure("program_list_element|wrong_line|%s" % hist, "%s.%s: element lines %r, expected %r" % (rname, arg.name, arg.list_linenos, wants)))
+            elif arg.lineno != lm[("arg", i, j)]:
+                fails.append(Failure("program_argument|wrong_line|%s" % hist, "%s.%s: line %r, the argument starts on line %d" % (
+                    rname, arg.name, arg.lineno, lm[("arg", i, j)])))
+        if len(fails) > 3:
+            break
+    return fails[:3]
+
+
 def check_fault(case, rec):
     from mpilot.exceptions import MPilotError
     from mpilot.program import Program
@@ -410,6 +443,7 @@ def check_fault(case, rec):
                 f.write("\n".join(",".join(r) for r in rows) + "\n")
         try:
             p = Program.from_source(text, working_dir=tmp if use_wd else None)
+            fails.extend(program_line_failures(p, prog, lm, hist, rec))
             p.run()
             rec.exclude("fault_not_rejected:%s (C12 owns acceptance)" % case["fault"])
             return []
@@ -431,6 +465,10 @@ def check_fault(case, rec):
             fails.append(Failure("%s|none_line|%s" % (kind, hist), "no line; expected %r\n%s" % (span, text)))
         elif not (span[0] <= line <= span[1]):
             fails.append(Failure("%s|wrong_line|%s" % (kind, hist), "line %r, expected within %r\n%s" % (line, span, text)))
+        elif loc[0] == "arg" and line != span[0] and prog["commands"][loc[1]]["args"][loc[2]]["value"]["k"] != "list":
+            # an argument with a scalar value starts on the line of its name: that is the line its errors carry
+            fails.append(Failure("%s|wrong_line:value_line_of_scalar_argument|%s" % (kind, hist),
+                                 "line %r, the offending argument starts on line %d\n%s" % (line, span[0], text)))
         if span[0] not in (1, loc[1] + 1):
             rec.nontrivial_case(case)
             rec.label("fault_nontrivial", sample={"fault": case["fault"], "text": text, "expected_lines": span} if len(text) < 500 else None)
